@@ -31,6 +31,7 @@ type stacking struct {
 	name      string
 	pp, tls   bool
 	mitm      bool
+	idleOnly  bool // idle-timeout is the only configured limit (read-header-timeout 0)
 	cli, ctrl *lib.CLI
 }
 
@@ -143,6 +144,9 @@ func startStacking(run *lib.Run, s *stacking, origin *lib.Origin, ca *lib.CA) er
 	args := []string{"--address", "127.0.0.1:0", "--proxy-localhost", "allow", "--http-dial-attempts", "1",
 		"--idle-timeout", "3s", "--read-header-timeout", "1500ms", "--tls-handshake-timeout", "2s",
 		"--connect-to", "origin.test:80:127.0.0.1:" + origin.Port() + ",origin.test:443:127.0.0.1:" + torigin.Port()}
+	if s.idleOnly {
+		args[9] = "0s"
+	}
 	if s.pp {
 		args = append(args, "--proxy-protocol-listener", "--proxy-protocol-read-header-timeout", "2500ms")
 	}
@@ -173,7 +177,7 @@ func main() {
 	})
 	ca := lib.NewCA("verif CA")
 	torigin = lib.MustOrigin("tls-origin", "127.0.0.1:0", &tls.Config{Certificates: []tls.Certificate{ca.ValidLeaf("origin.test")}}, origin.Handler)
-	stackings := []*stacking{{name: "plain"}, {name: "tls", tls: true}, {name: "pp", pp: true}, {name: "pp+tls", pp: true, tls: true}, {name: "mitm", mitm: true}}
+	stackings := []*stacking{{name: "plain"}, {name: "tls", tls: true}, {name: "pp", pp: true}, {name: "pp+tls", pp: true, tls: true}, {name: "mitm", mitm: true}, {name: "plain-idle-only", idleOnly: true}}
 	for _, s := range stackings {
 		if err := startStacking(run, s, origin, ca); err != nil {
 			run.Inconclusive("start " + s.name + ": " + err.Error())
@@ -237,10 +241,15 @@ func main() {
 				cases = append(cases, scase{name: "layers-done-then-silence", st: s, steps: pre, limits: []time.Duration{idleT}, from: "last-step"})
 			}
 			for _, k := range headKs {
+				if s.idleOnly {
+					break // no limit is configured for an incomplete head
+				}
 				cases = append(cases, scase{name: fmt.Sprintf("request-head-after-%d", k), st: s, steps: append(append([]step(nil), pre...), step{"head-part", k}), limits: []time.Duration{headT}, from: "last-step"})
 			}
 			cases = append(cases, scase{name: "between-requests", st: s, steps: append(append([]step(nil), pre...), step{kind: "exchange"}), limits: []time.Duration{idleT}, from: "last-step"})
-			cases = append(cases, scase{name: "second-request-head-partial", st: s, steps: append(append([]step(nil), pre...), step{kind: "exchange"}, step{"head-part", 20}), limits: []time.Duration{headT}, from: "last-step"})
+			if !s.idleOnly {
+				cases = append(cases, scase{name: "second-request-head-partial", st: s, steps: append(append([]step(nil), pre...), step{kind: "exchange"}, step{"head-part", 20}), limits: []time.Duration{headT}, from: "last-step"})
+			}
 		} else {
 			cases = append(cases, scase{name: "mitm-after-connect-200", st: s, steps: []step{{kind: "connect-mitm"}}, limits: []time.Duration{tlsT, idleT}, from: "last-step"})
 			for _, k := range helloKs {
@@ -268,6 +277,7 @@ func main() {
 	wg.Wait()
 	lateHeads(run, hb, stackings, hello, len(cases)+50)
 	slowOrigin(run, hb, stackings, hello, len(cases))
+	progressing(run, hb, stackings, hello, len(cases)+200)
 	nonInterference(run, hb, stackings, hello, len(cases)+100)
 	for _, s := range stackings {
 		for _, c := range []*lib.CLI{s.cli, s.ctrl} {
@@ -281,6 +291,7 @@ func main() {
 	run.Floor("stall_cases_decided", int64(len(cases)*8/10))
 	run.Floor("slow_origin_served", 4)
 	run.Floor("noninterference_probes", 6)
+	run.Floor("progressing_connections_served", 8)
 	run.Finish()
 }
 
@@ -398,6 +409,103 @@ func slowOrigin(run *lib.Run, hb *lib.Heartbeat, ss []*stacking, hello []byte, b
 			}
 			run.Violation("closed-while-origin-slow:"+s.name, fmt.Sprintf("[%s] request fully sent, origin answers after 5 s: client got %v after %.2f s (%v)", s.name, m, el.Seconds(), rerr), idx, nil)
 		}(s, idx)
+	}
+	wg.Wait()
+}
+
+// progressing: connections that keep making progress for longer than every configured limit - a
+// CONNECT tunnel in steady use, a tunnel whose target answers after 5 s, a request body that
+// arrives steadily over 5 s - are not stalled: no limit applies and they must be served.
+func progressing(run *lib.Run, hb *lib.Heartbeat, ss []*stacking, hello []byte, base int) {
+	var wg sync.WaitGroup
+	idx := base
+	for _, s := range ss {
+		for _, kind := range []string{"tunnel-in-steady-use", "tunnel-target-slow", "steady-upload"} {
+			idx++
+			if s.mitm && kind != "steady-upload" || !run.Want(idx) {
+				continue
+			}
+			wg.Add(1)
+			go func(s *stacking, kind string, idx int) {
+				defer wg.Done()
+				run.Case(idx, s.name+"|progressing|"+kind, nil)
+				var steps []step
+				if s.pp {
+					steps = append(steps, step{kind: "pp-full"})
+				}
+				if s.tls {
+					steps = append(steps, step{kind: "tls-full"})
+				}
+				if s.mitm {
+					steps = append(steps, step{kind: "connect-mitm"}, step{kind: "inner-tls-full"})
+				}
+				se, _, _, err := perform(s, steps, hello)
+				if err != nil {
+					run.Inconclusive("progressing set-up: " + err.Error())
+					return
+				}
+				defer se.raw.Close()
+				t0 := time.Now()
+				st := lib.NewStream(se.conn)
+				fail := func(what string) {
+					if !hb.Healthy(t0) {
+						run.Inconclusive("progressing connection failed, unhealthy heartbeat")
+						return
+					}
+					run.Violation("closed-while-progressing:"+s.name+":"+kind, fmt.Sprintf("[%s %s] %.2f s after the exchange began: %s", s.name, kind, time.Since(t0).Seconds(), what), idx, nil)
+				}
+				if kind != "steady-upload" {
+					fmt.Fprintf(se.conn, "CONNECT origin.test:80 HTTP/1.1\r\nHost: origin.test:80\r\n\r\n")
+					if m, pst, rerr := st.ReadResponse("CONNECT", 10*time.Second); pst != lib.POK || m.Status != 200 {
+						run.Inconclusive(fmt.Sprintf("progressing: CONNECT not accepted: %v %v", m, rerr))
+						return
+					}
+				}
+				switch kind {
+				case "tunnel-in-steady-use":
+					for i := 0; i < 9; i++ {
+						fmt.Fprintf(se.conn, "GET /ok HTTP/1.1\r\nHost: origin.test\r\nX-Vid: t%d\r\n\r\n", i)
+						m, pst, rerr := st.ReadResponse("GET", 8*time.Second)
+						if pst != lib.POK || m.Status != 200 || m.Get1("X-Vid") != fmt.Sprintf("t%d", i) {
+							fail(fmt.Sprintf("request %d inside the tunnel (one every 0.6 s) was not answered: %v %v", i, m, rerr))
+							return
+						}
+						time.Sleep(600 * time.Millisecond)
+					}
+				case "tunnel-target-slow":
+					fmt.Fprintf(se.conn, "GET /slow HTTP/1.1\r\nHost: origin.test\r\nX-Vid: ts\r\n\r\n")
+					m, pst, rerr := st.ReadResponse("GET", 12*time.Second)
+					if pst != lib.POK || m.Status != 200 {
+						fail(fmt.Sprintf("the target answers after 5 s, the client got %v (%v)", m, rerr))
+						return
+					}
+				case "steady-upload":
+					target := "http://origin.test/up"
+					if s.mitm {
+						target = "/up"
+					}
+					fmt.Fprintf(se.conn, "POST %s HTTP/1.1\r\nHost: origin.test\r\nX-Vid: up\r\nContent-Length: 10240\r\n\r\n", target)
+					chunk := make([]byte, 1024)
+					for i := 0; i < 10; i++ {
+						time.Sleep(500 * time.Millisecond)
+						if _, err := se.conn.Write(chunk); err != nil {
+							fail(fmt.Sprintf("write of body part %d (one every 0.5 s) failed: %v", i, err))
+							return
+						}
+					}
+					m, pst, rerr := st.ReadResponse("POST", 8*time.Second)
+					if pst != lib.POK || m.Status != 200 {
+						fail(fmt.Sprintf("body sent steadily over 5 s, the client got %v (%v)", m, rerr))
+						return
+					}
+				}
+				if time.Since(t0) < idleT+500*time.Millisecond {
+					run.Inconclusive("progressing exchange ended before the largest limit")
+					return
+				}
+				run.Count("progressing_connections_served", 1)
+			}(s, kind, idx)
+		}
 	}
 	wg.Wait()
 }
